@@ -376,7 +376,7 @@ def operands_untouched(chk, repo, clause, keys, allow=()):
 
 PROPERTY_MODULES = {
     'C01': ['fourier'], 'C02': ['propagate', 'fourier', 'extent', 'field', 'wavefront', 'util'],
-    'C03': ['plane', 'helper', 'field', 'wavefront', 'propagate'], 'C04': ['plane', 'field', 'propagate', 'wavefront'],
+    'C03': ['plane', 'helper', 'field', 'wavefront', 'propagate', 'fourier', 'extent'], 'C04': ['plane', 'field', 'propagate', 'wavefront'],
     'C05': ['fourier', 'propagate', 'util', 'wavefront'], 'C06': ['field', 'extent'],
     'C07': ['wavefront', 'plane', 'field'], 'C08': ['plane', 'propagate', 'ptype', 'wavefront'],
     'C09': ['propagate', 'util', 'field'], 'C11': ['zernike', 'helper', 'util'], 'C12': ['zernike'],
@@ -411,6 +411,12 @@ def no_hidden_state(chk, repo, pid):
             bad.append((f.key, name, how, loc))
         for ck, how, loc in s.cached_writes:
             bad.append((f.key, 'memoised result of ' + ck, how, loc))
+        # state kept on the class object (written through `cls` in __new__ / a classmethod) is shared by every later call too
+        if f.cls is not None and (f.is_classmethod or f.name == '__new__') and f.params():
+            first = f.params()[0][0]
+            for w in s.writes:
+                if w.param == first:
+                    bad.append((f.key, f'class attribute of {f.cls.name} ({w.detail})', w.how, w.loc))
     seen = set()
     for fk, name, how, loc in bad:
         if (fk, name) in seen:
